@@ -166,6 +166,15 @@ def explore(chk):
         chk.case(key=("verbatim", raw), nontrivial=True); chk.count("vtt_verbatim")
         if ("00:01.000 --> 00:02.000 " + raw) not in back.split("\n"):
             chk.property_failure({"source": src, "output": back}, "webvtt: cue settings read from a file are not written back verbatim")
+        # a file of several cues, some with settings and some without: every timing line comes back as it was
+        SETS = ["line:10% align:left", "position:5%,line-left size:40%", "vertical:rl", "align:center line:-2", None, None]
+        seq = [rng.choice(SETS) for _ in range(rng.randint(2, 4))]
+        tls = ["00:%02d.000 --> 00:%02d.500" % (2 * i + 1, 2 * i + 2) + (" " + st if st else "") for i, st in enumerate(seq)]
+        src = "WEBVTT\n\n" + "\n".join("%s\ncue %d\n" % (tl, i) for i, tl in enumerate(tls))
+        back = core.POOL.get(pycaption.WebVTTWriter).write(core.POOL.get(pycaption.WebVTTReader).read(src))
+        chk.case(key=("verbatim-seq", src), nontrivial=True); chk.count("vtt_verbatim_sequences")
+        if [l for l in back.split("\n") if "-->" in l] != tls:
+            chk.property_failure({"source": src, "output": back, "spec": tls}, "webvtt: the timing lines of a file whose cues partly carry settings are not written back verbatim")
     # ---------------- WebVTT: a writer object reused for several documents keeps nothing from the previous one
     shared = {}
     for k in range(60 if chk.tier == "quick" else 1500):
